@@ -326,7 +326,7 @@ func (se *symExec) printfText(format string, args []ssa.Value, env map[ssa.Value
 func runSpecialText(c *core.Ctx) {
 	p := c.P
 	cs := GetCensus(c)
-	n := 0
+	n, nWhole := 0, 0
 	for _, sp := range cs.Specials {
 		if len(sp.Params) != 3 {
 			continue
@@ -338,11 +338,22 @@ func runSpecialText(c *core.Ctx) {
 			if !ok || !ta.CommaOk || ta.X != ssa.Value(errP) {
 				return
 			}
+			if _, isIface := types.Unalias(ta.AssertedType).Underlying().(*types.Interface); isIface {
+				// an interface arm (runtime.Error, redact.SafeMessager - an alias of an interface literal): the arm prints
+				// the whole text, which must be the value's own Error()
+				checkWholeTextArm(c, sp, ta, prP)
+				nWhole++
+				return
+			}
 			named := sx.NamedOf(ta.AssertedType)
 			if named == nil || named.Obj().Pkg() == nil || load.IsModPath(named.Obj().Pkg().Path()) {
 				return
 			}
 			if _, isPtr := types.Unalias(ta.AssertedType).(*types.Pointer); !isPtr {
+				// an interface or a non-pointer leaf type (runtime.Error, syscall.Errno, redact.SafeMessager): the arm
+				// prints the whole text, which must be the value's own Error()
+				checkWholeTextArm(c, sp, ta, prP)
+				nWhole++
 				return
 			}
 			if _, isStruct := named.Underlying().(*types.Struct); !isStruct {
@@ -457,6 +468,92 @@ func runSpecialText(c *core.Ctx) {
 		})
 	}
 	c.Min("typed arms for foreign wrappers", n, 3)
+	c.Min("whole-text arms (interfaces and leaf types)", nWhole, 2)
+}
+
+// checkWholeTextArm: on the arm taken when err is asserted to the (interface or leaf) type T, everything printed is
+// v.Error() of the asserted value, possibly declared safe.
+func checkWholeTextArm(c *core.Ctx, sp *ssa.Function, ta *ssa.TypeAssert, printer *ssa.Parameter) {
+	construct := load.FnName(sp) + ": arm for " + load.TypeName(ta.AssertedType)
+	var armStart *ssa.BasicBlock
+	var recv ssa.Value
+	for _, r := range *ta.Referrers() {
+		ex, ok := r.(*ssa.Extract)
+		if !ok {
+			continue
+		}
+		if ex.Index == 0 {
+			recv = ex
+		}
+		if ex.Index == 1 {
+			for _, u := range *ex.Referrers() {
+				if ifi, ok := u.(*ssa.If); ok {
+					armStart = ifi.Block().Succs[0]
+				}
+			}
+		}
+	}
+	if armStart == nil || recv == nil {
+		c.Undecided(construct, ta.Pos(), "typed arm not recognised (no branch on the assertion result)")
+		return
+	}
+	// the arm's blocks: dominated by armStart
+	var what []string
+	for _, b := range sp.Blocks {
+		if !armStart.Dominates(b) {
+			continue
+		}
+		for _, in := range b.Instrs {
+			call, ok := in.(*ssa.Call)
+			if !ok || !call.Call.IsInvoke() || call.Call.Value != ssa.Value(printer) {
+				continue
+			}
+			var vals []ssa.Value
+			switch call.Call.Method.Name() {
+			case "Print":
+				vals = varargs(call.Call.Args[0])
+			case "Printf":
+				vals = append(vals, varargs(call.Call.Args[1])...)
+				if f, isC := sx.ConstString(call.Call.Args[0]); !isC || f != "%s" && f != "%v" {
+					what = append(what, "a formatted text")
+				}
+			default:
+				continue
+			}
+			for _, v := range vals {
+				v = stripIface(v)
+				if sc, isCall := v.(*ssa.Call); isCall {
+					if f := sx.Callee(sc); f != nil && f.Name() == "Safe" && len(sc.Call.Args) == 1 {
+						v = stripIface(sc.Call.Args[0])
+					}
+				}
+				ec, isCall := v.(*ssa.Call)
+				isErrText := false
+				if isCall {
+					if ec.Call.IsInvoke() && ec.Call.Method.Name() == "Error" && ec.Call.Value == recv {
+						isErrText = true
+					}
+					if f := sx.Callee(ec); f != nil && f.Name() == "Error" && len(ec.Call.Args) == 1 && ec.Call.Args[0] == recv {
+						isErrText = true
+					}
+				}
+				if !isErrText {
+					d := describeVal(v)
+					if isCall && ec.Call.IsInvoke() {
+						d = "the value's " + ec.Call.Method.Name() + "()"
+					}
+					what = append(what, d)
+				}
+			}
+		}
+	}
+	sort.Strings(what)
+	what = dedupStr(what)
+	if len(what) == 0 {
+		c.Ob(construct, ta.Pos(), true, "prints the value's own Error()")
+	} else {
+		c.Fail(construct, ta.Pos(), "the special-case printer prints "+strings.Join(what, ", ")+" instead of the value's Error() text, so %v/%s of a library error wrapping such a value differs from its Error() string")
+	}
 }
 
 func orAlways(s string) string {
